@@ -60,6 +60,7 @@ CHECKS["C12"]["tech"] = SOLVER_TECH + KN + "; refined partition model SolverComp
 solver("C13", "SolverReplacement (default and auto_replace=False), SolverHybrid in exact mode validated against the exact relation; SolverVSA and SolverHybrid(exact=False / approximate_first) against the over-approximation relation (never unsat on sat, never exclude a value, bounds on the right side).")
 CHECKS["C13"]["tech"] = SOLVER_TECH + KN + "; refined model SolverReplacement.tla (Term.tla semantics) explored by TLC (3 invariants, action property OnlyKnown, strict property refuted = the known finding), its states x inputs replayed on the real class with the replacement dictionary compared"
 solver("C14", "Branch-heavy histories on trees of up to 5 solver objects of every frontend class; isolation is per-id correctness in SolverAbs (Branch copies the model set, no later action on one id mentions the other); probe battery on every live id.")
+CHECKS["C14"]["tech"] = SOLVER_TECH + "; refined model SolverCompositeCow.tla (a SolverComposite and its branch sharing child objects: ownership, claiming) explored by TLC (refinement property per composite + 3 invariants, negative control), its states x inputs replayed on the real class and its branch with both partitions compared"
 solver("C15", "merge (with and without ancestor), combine and split on solvers produced by random histories: TLC computes the documented model sets (union of condition_i /\\ models_i, intersection, variable-disjoint parts carrying every conjunct and jointly equivalent) and checks the results and all later answers of the results.")
 solver("C16", "Tracked Solver / SolverCacheless / SolverComposite histories with unsat_core(): TLC checks empty core on satisfiable sets, every element a constraint that was added (or currently held), and unsatisfiability of the conjunction of the core by enumeration.")
 solver("C17", "Fault injection: z3.Solver.check returns unknown (timeout / resource limit / other) at the k-th check of a random operation; TLC requires a claripy error for the faulted call and validates every later answer of the solver and its branches against the unchanged model set.", cat="fault_enumeration")
